@@ -94,6 +94,11 @@ class Monitor:
             ctx.count('queries_unspecified')
             return
         hit, scope, k = r
+        exp_texts = []
+        for i in hit:
+            e = self.st['entries'][i]
+            exp_texts.append([history.expected_text(e['rec'], e['side'], self.st['names'][e['ci']]), streams.exp_floats(e['rec'], self.st['dialect'])])
+        case = dict(case, expected_listing=exp_texts, scope_size=len(scope))
         listed = [i for i in items if i['kind'] == 'msg']
         if len(listed) != len(hit):
             ctx.violation('list-selection', '%r listed %d messages, expected %d (of %d matching, %d in scope): first listed %r' % (
@@ -368,3 +373,14 @@ def replay(ctx, case):
     s.command(case['query'])
     for k, p in s.events[n0:]:
         print(k, outline.strip_sgr(str(p))[:220])
+    if case.get('expected_listing') is not None:
+        items = [outline.parse_line(p) for k, p in s.events[n0:] if k == 'out']
+        listed = [i for i in items if i['kind'] == 'msg']
+        ctx.ev()
+        want = case['expected_listing']
+        bad = len(listed) != len(want) or any(streams.compare_line(l['text'], w[0], w[1])[0] for l, w in zip(listed, want))
+        tail = [i for i in items if i['kind'] == 'count']
+        if not bad and want and (not tail or tail[0]['matched'] + tail[0]['didnt'] + tail[0]['not_checked'] != case['scope_size'] or tail[0]['matched'] != len(want)):
+            bad = True
+        if bad:
+            ctx.violation('list-selection', '%r lists %d messages, the stored expectation has %d (scope %d)' % (case['query'], len(listed), len(want), case['scope_size']), case)
